@@ -183,8 +183,8 @@ def explore(run_one, bound, check, part=None, max_exec=None):
     """enumerates every schedule with at most `bound` preemptions.
     run_one(prefix) executes ONE schedule (typically in a forked pristine interpreter) and returns a dict with
     'points' [(enabled tuple, running_still_enabled)], 'choices' [...] and whatever check() needs.
-    check(record) is called for each complete execution.  part=(k, n) restricts the FIRST deviation from the default
-    schedule to point indices i with i % n == k (partition of the schedule space over workers).  Returns statistics."""
+    check(record) is called for each complete execution.  part=(k, n) restricts the FIRST PREEMPTION to point indices i
+    with i % n == k (partition of the schedule space over workers; the union over k is the whole space).  Returns statistics."""
     stats = {'executions': 0, 'max_points': 0, 'capped': False, 'bound': bound}
     stack = [[]]
     while stack:
@@ -199,10 +199,12 @@ def explore(run_one, bound, check, part=None, max_exec=None):
             stats['capped'] = True
             break
         for i in range(len(prefix), len(ex['points'])):
-            if part is not None and not prefix and i % part[1] != part[0]:
-                continue
             en, running_enabled = ex['points'][i]
             cost = preemptions(ex['points'], ex['choices'], i)
+            if part is not None and cost == 0 and running_enabled and i % part[1] != part[0]:
+                # the partition is by the position of the FIRST PREEMPTION (free choices - which thread starts, which one
+                # continues when another has finished - are explored in every part)
+                continue
             if running_enabled:
                 cost += 1
             if cost > bound:
